@@ -40,6 +40,7 @@ pub fn cfg_from(sc: &Value) -> Cfg {
         c14: b("c14", false),
         burst: b("burst", true),
         reentrant: b("reentrant", false),
+        passive: b("passive", false),
         nsinks: c.get("sinks").and_then(|x| x.as_array()).map(|a| a.len()).unwrap_or(1),
     }
 }
